@@ -39,6 +39,13 @@ Definition expected_idx (idxs:list Z) : idx_res :=
   | _ => IdxTuple (map Z.to_N idxs)
   end.
 
+(* CPython's int() refuses digit strings longer than sys.int_max_str_digits (4300): an index is "small"
+   when its rendering f"{i:02d}" stays within that limit (every i < 2^4300 is; real indices are < 2^20),
+   "huge" otherwise -- for a huge index att2idx catches the ValueError and answers 0. *)
+Definition small_idx (i:Z) : Prop := (String.length (dd (Z.to_N i)) <= int_max_str_digits)%nat.
+Definition huge_idx  (i:Z) : Prop := (int_max_str_digits < String.length (dd (Z.to_N i)))%nat.
+Definition small_idxs (idxs:list Z) : Prop := Forall small_idx idxs.
+
 (* ---------- C19 table checker: descriptions are unambiguous ---------- *)
 Fixpoint strip_prefix (p s:string) : option string :=
   match p with
